@@ -9,7 +9,6 @@ import (
 
 	"github.com/karagenc/socket.io-go/internal/sync"
 
-	"github.com/fatih/structs"
 	"github.com/karagenc/socket.io-go/adapter"
 	eioparser "github.com/karagenc/socket.io-go/engine.io/parser"
 	"github.com/karagenc/socket.io-go/parser"
@@ -317,9 +316,20 @@ func (s *clientSocket) sendConnectPacket(authData any) {
 		m["offset"] = lastOffset
 
 		if authData != nil {
-			a := structs.New(&authData)
-			a.TagName = "json"
-			for k, v := range a.Map() {
+			// `authData` is a struct, a map, or a pointer to one of them (see `setAuth`).
+			// Merge its JSON fields with the session recovery fields.
+			data, err := json.Marshal(authData)
+			if err != nil {
+				s.onError(wrapInternalError(err))
+				return
+			}
+			var fields map[string]json.RawMessage
+			err = json.Unmarshal(data, &fields)
+			if err != nil {
+				s.onError(wrapInternalError(err))
+				return
+			}
+			for k, v := range fields {
 				m[k] = v
 			}
 		}
